@@ -10,7 +10,7 @@ import shutil
 import sqlite3
 
 from .. import runner, sqlnorm as SN
-from ..framework import ALL_SCHEMAS, is_v2, schema_tuple
+from ..framework import dir_name, ALL_SCHEMAS, is_v2, schema_tuple
 
 LEVEL = "exploration"
 RULE = ("the finite space: 18 versions x {on disk, temporary} x {m.db, p.db} against all 72 reference dump files "
@@ -99,7 +99,7 @@ def run(ctx):
     try:
         cases = []
         for i, schema in enumerate(ALL_SCHEMAS):
-            d = os.path.join(root, "v%d" % i)
+            d = os.path.join(root, dir_name("v%d" % i, i))   # directory names with characters special to URIs / SQL / shells
             os.makedirs(d)
             cases.append({"id": "disk%d" % i, "schema": schema, "dir": d, "kind": "disk",
                           "ops": [{"op": "create", "schema": schema, "dir": d}, {"op": "verify"}, {"op": "db_query", "q": "version_name"},
